@@ -315,6 +315,8 @@ impl<L> ClientBuilder<L> {
 		let (client_dropped_tx, client_dropped_rx) = oneshot::channel();
 		let (send_receive_task_sync_tx, send_receive_task_sync_rx) = mpsc::channel(1);
 		let manager = ThreadSafeRequestManager::new();
+		#[cfg(jsonrpsee_verif)]
+		let verif_manager = manager.clone();
 
 		let (ping_interval, inactivity_stream, inactivity_check) = match self.ping_config {
 			None => (IntervalStream::pending(), IntervalStream::pending(), InactivityCheck::Disabled),
@@ -367,6 +369,8 @@ impl<L> ClientBuilder<L> {
 			error: ErrorFromBack::new(to_back, disconnect_reason),
 			id_manager: RequestIdManager::new(self.id_kind),
 			on_exit: Some(client_dropped_tx),
+			#[cfg(jsonrpsee_verif)]
+			verif_manager,
 		}
 	}
 
@@ -389,6 +393,8 @@ impl<L> ClientBuilder<L> {
 		let (client_dropped_tx, client_dropped_rx) = oneshot::channel();
 		let (send_receive_task_sync_tx, send_receive_task_sync_rx) = mpsc::channel(1);
 		let manager = ThreadSafeRequestManager::new();
+		#[cfg(jsonrpsee_verif)]
+		let verif_manager = manager.clone();
 
 		let ping_interval = PendingIntervalStream::pending();
 		let inactivity_stream = PendingIntervalStream::pending();
@@ -426,6 +432,8 @@ impl<L> ClientBuilder<L> {
 			error: ErrorFromBack::new(to_back, disconnect_reason),
 			id_manager: RequestIdManager::new(self.id_kind),
 			on_exit: Some(client_dropped_tx),
+			#[cfg(jsonrpsee_verif)]
+			verif_manager,
 		}
 	}
 }
@@ -443,6 +451,19 @@ pub struct Client<L = RpcLogger<RpcService>> {
 	/// When the client is dropped a message is sent to the background thread.
 	on_exit: Option<oneshot::Sender<()>>,
 	service: L,
+	/// Verification hook: handle to the request table shared with the background tasks.
+	#[cfg(jsonrpsee_verif)]
+	verif_manager: ThreadSafeRequestManager,
+}
+
+#[cfg(jsonrpsee_verif)]
+impl<L> Client<L> {
+	/// Verification hook: number of entries in the four internal tables
+	/// (requests, subscriptions, batches, notification handlers).
+	#[doc(hidden)]
+	pub fn verif_table_sizes(&self) -> (usize, usize, usize, usize) {
+		self.verif_manager.lock().verif_sizes()
+	}
 }
 
 impl Client<Identity> {
